@@ -41,16 +41,16 @@ Qed.
 
 (** ** one call *)
 
-Lemma step_Inv o P s p s' r : Inv o P s -> step s p = Some (s', r) ->
-  Inv o (fun j => P j \/ op_sets p j) s' /\ Mono (fun j => P j \/ op_sets p j) s s'.
+Lemma step_Inv st o P s p s' r : Inv st o P s -> step s p = Some (s', r) ->
+  Inv st o (fun j => P j \/ op_sets p j) s' /\ Mono (fun j => P j \/ op_sets p j) s s'.
 Proof.
   intros H E. destruct p as [idx| |j|j]; cbn [step op_sets] in *.
-  - destruct (Set_spec o P s idx H) as (s1 & E1 & I1 & M1 & M2 & M3).
+  - destruct (Set_spec st o P s idx H) as (s1 & E1 & I1 & M1 & M2 & M3).
     rewrite E1 in E. inversion E; subst s' r. split; [exact I1|].
     constructor; assumption.
-  - inversion E; subst s' r. destruct (Inv_Compact o P s H) as (I1 & M1 & M2 & M3).
+  - inversion E; subst s' r. destruct (Inv_Compact st o P s H) as (I1 & M1 & M2 & M3).
     split.
-    + eapply Inv_ext; [|exact I1]. intros j. tauto.
+    + eapply Inv_ext; [|exact (Inv_weaken True st o P _ (fun _ => Logic.I) I1)]. intros j. tauto.
     + constructor; [exact M1|lia|]. intros j Hj. left. apply M3. exact Hj.
   - destruct (Get s j); [|discriminate]. inversion E; subst s' r. split.
     + eapply Inv_ext; [|exact H]. intros k. tauto.
@@ -62,15 +62,15 @@ Qed.
 
 (** Set and Compact never panic (no hypothesis on the state is needed for Compact;
     Set needs none either, but the proof goes through the invariant's word arithmetic) *)
-Lemma Set_total o P s idx : Inv o P s -> Set_ s idx <> None.
+Lemma Set_total st o P s idx : Inv st o P s -> Set_ s idx <> None.
 Proof.
-  intros H. destruct (Set_spec o P s idx H) as (s1 & E1 & _). congruence.
+  intros H. destruct (Set_spec st o P s idx H) as (s1 & E1 & _). congruence.
 Qed.
 
 (** ** whole histories *)
 
-Lemma run_Inv o : forall ops P s s' rs, Inv o P s -> run s ops = Some (s', rs) ->
-  Inv o (fun j => P j \/ was_set ops j) s' /\ Mono (fun j => P j \/ was_set ops j) s s' /\
+Lemma run_Inv st o : forall ops P s s' rs, Inv st o P s -> run s ops = Some (s', rs) ->
+  Inv st o (fun j => P j \/ was_set ops j) s' /\ Mono (fun j => P j \/ was_set ops j) s s' /\
   length rs = length ops.
 Proof.
   induction ops as [|p t IH]; intros P s s' rs H E; cbn [run] in E.
@@ -79,7 +79,7 @@ Proof.
   - destruct (step s p) as [[s1 r]|] eqn:E1; [|discriminate].
     destruct (run s1 t) as [[s2 rs2]|] eqn:E2; [|discriminate].
     inversion E; subst s' rs.
-    destruct (step_Inv o P s p s1 r H E1) as [I1 M1].
+    destruct (step_Inv st o P s p s1 r H E1) as [I1 M1].
     destruct (IH _ _ _ _ I1 E2) as (I2 & M2 & L2).
     assert (Hiff : forall j, ((P j \/ op_sets p j) \/ was_set t j) <-> (P j \/ was_set (p :: t) j)).
     { intros j. unfold was_set. cbn [In]. destruct p; cbn [op_sets]; split; intros A.
@@ -115,15 +115,15 @@ Qed.
 
 (** every reachable state satisfies the invariant for the set of indices set so far *)
 Lemma reach_Inv o ops s rs : o mod 64 = 0 -> run (NewTailBitmap o) ops = Some (s, rs) ->
-  Inv o (was_set ops) s.
+  Inv True o (was_set ops) s.
 Proof.
-  intros Ho E. destruct (run_Inv o ops _ _ _ _ (Inv_New o Ho) E) as (I & _ & _).
+  intros Ho E. destruct (run_Inv True o ops _ _ _ _ (Inv_New True o Ho) E) as (I & _ & _).
   eapply Inv_ext; [|exact I]. intros j. tauto.
 Qed.
 
 Lemma reach_TInv o ops s rs : o mod 64 = 0 -> run (NewTailBitmap o) ops = Some (s, rs) ->
   TInv o (was_set ops) (Offset s) (Words s).
-Proof. intros Ho E. apply Inv_TInv. eapply reach_Inv; eassumption. Qed.
+Proof. intros Ho E. apply (Inv_TInv True); [exact Logic.I|]. eapply reach_Inv; eassumption. Qed.
 
 (** Offset and the end never decrease along a history, and Offset only moves past set positions *)
 Lemma reach_mono o ops1 ops2 s1 rs1 s2 rs2 : o mod 64 = 0 ->
@@ -134,7 +134,7 @@ Lemma reach_mono o ops1 ops2 s1 rs1 s2 rs2 : o mod 64 = 0 ->
   run (NewTailBitmap o) (ops1 ++ ops2) = Some (s2, rs1 ++ rs2).
 Proof.
   intros Ho E1 E2. pose proof (reach_Inv o ops1 s1 rs1 Ho E1) as I1.
-  destruct (run_Inv o ops2 _ _ _ _ I1 E2) as (_ & M & _).
+  destruct (run_Inv True o ops2 _ _ _ _ I1 E2) as (_ & M & _).
   split; [apply M|]. split; [apply M|]. split.
   - intros j Hj. apply (mo_passed _ _ _ M) in Hj. unfold was_set in *.
     apply in_or_app. exact Hj.
@@ -163,13 +163,13 @@ Proof.
   destruct (Z_lt_le_dec j (end_of s)) as [Hlt|Hge].
   - assert (Hm : exists m : bool, m = true <-> j < o \/ was_set ops j).
     { destruct (Z_lt_le_dec j (Offset s)) as [Hb|Hb].
-      - exists true. split; [intros _; apply (inv_below _ _ _ I); exact Hb|reflexivity].
-      - pose proof (Inv_TInv _ _ _ I) as T.
+      - exists true. split; [intros _; apply (inv_below _ _ _ _ I); exact Hb|reflexivity].
+      - pose proof (Inv_TInvW _ _ _ _ I) as T.
         exists (bitz (flat (Words s)) (j - Offset s)).
-        rewrite (ti_bits _ _ _ _ T j) by (split; [lia|exact Hlt]).
-        pose proof (inv_ge _ _ _ I). split; [tauto|]. intros [A|A]; [lia|exact A]. }
+        rewrite (tw_bits _ _ _ _ T j) by (split; [lia|exact Hlt]).
+        pose proof (inv_ge _ _ _ _ I). split; [tauto|]. intros [A|A]; [lia|exact A]. }
     destruct Hm as [m Hm].
-    destruct (Get_spec o _ s j m I Hlt Hm) as [G1 G]. rewrite G1, G.
+    destruct (Get_spec True o _ s j m I Hlt Hm) as [G1 G]. rewrite G1, G.
     unfold end_of in Hlt. split; (split; [intros _; exact Hlt|discriminate]).
   - assert (Hoff : Offset s <= j).
     { unfold end_of, tb_end, zlen in Hge. lia. }
@@ -184,20 +184,20 @@ Lemma reach_Compact o ops s rs : o mod 64 = 0 ->
   forall j, Get (Compact s) j = Get s j /\ Get1 (Compact s) j = Get1 s j.
 Proof.
   intros Ho E. pose proof (reach_Inv o ops s rs Ho E) as I.
-  destruct (Inv_Compact o _ s I) as (IC & M1 & M2 & M3).
+  destruct (Inv_Compact True o _ s I) as (IC & M1 & M2 & M3).
   split; [exact M2|]. intros j.
   destruct (Z_lt_le_dec j (end_of s)) as [Hlt|Hge].
   - assert (Hm : exists m : bool, m = true <-> j < o \/ was_set ops j).
     { destruct (Z_lt_le_dec j (Offset s)) as [Hb|Hb].
-      - exists true. split; [intros _; apply (inv_below _ _ _ I); exact Hb|reflexivity].
-      - pose proof (Inv_TInv _ _ _ I) as T.
+      - exists true. split; [intros _; apply (inv_below _ _ _ _ I); exact Hb|reflexivity].
+      - pose proof (Inv_TInvW _ _ _ _ I) as T.
         exists (bitz (flat (Words s)) (j - Offset s)).
-        rewrite (ti_bits _ _ _ _ T j) by (split; [lia|exact Hlt]).
-        pose proof (inv_ge _ _ _ I). split; [tauto|]. intros [A|A]; [lia|exact A]. }
+        rewrite (tw_bits _ _ _ _ T j) by (split; [lia|exact Hlt]).
+        pose proof (inv_ge _ _ _ _ I). split; [tauto|]. intros [A|A]; [lia|exact A]. }
     destruct Hm as [m Hm].
-    destruct (Get_spec o _ s j m I Hlt Hm) as [G1 G].
+    destruct (Get_spec True o _ s j m I Hlt Hm) as [G1 G].
     assert (Hlt' : j < end_of (Compact s)) by (rewrite M2; exact Hlt).
-    destruct (Get_spec o _ (Compact s) j m IC Hlt' Hm) as [G1' G'].
+    destruct (Get_spec True o _ (Compact s) j m IC Hlt' Hm) as [G1' G'].
     rewrite G1, G, G1', G'. split; reflexivity.
   - assert (Hoff : Offset (Compact s) <= j).
     { rewrite <- M2 in Hge. unfold end_of, tb_end, zlen in Hge. lia. }
@@ -244,11 +244,11 @@ Proof.
 Qed.
 
 (** a history whose probes are all below the end at their time runs to completion *)
-Lemma step_total o P s p : Inv o P s ->
+Lemma step_total st o P s p : Inv st o P s ->
   (forall j, p = OGet j \/ p = OGet1 j -> j < end_of s) -> step s p <> None.
 Proof.
   intros H Hp. destruct p as [idx| |j|j]; cbn [step].
-  - destruct (Set_spec o P s idx H) as (s1 & E1 & _). rewrite E1. discriminate.
+  - destruct (Set_spec st o P s idx H) as (s1 & E1 & _). rewrite E1. discriminate.
   - discriminate.
   - assert (Hlt : j < end_of s) by (apply Hp; left; reflexivity).
     destruct (Z_lt_le_dec j (Offset s)) as [Hb|Hb].
@@ -310,23 +310,23 @@ Proof.
   - intros Hj. exists j. auto.
 Qed.
 
-Lemma run_sets_total o : forall l P s, Inv o P s -> exists s' rs, run s (map OSet l) = Some (s', rs).
+Lemma run_sets_total st o : forall l P s, Inv st o P s -> exists s' rs, run s (map OSet l) = Some (s', rs).
 Proof.
   induction l as [|i t IH]; intros P s H; cbn [map run].
   - eauto.
-  - cbn [step]. destruct (Set_spec o P s i H) as (s1 & E1 & I1 & _). rewrite E1.
+  - cbn [step]. destruct (Set_spec st o P s i H) as (s1 & E1 & I1 & _). rewrite E1.
     destruct (IH _ _ I1) as (s2 & rs & E2). rewrite E2. eauto.
 Qed.
 
-Lemma set_up_Inv o P n s idx : Inv o P s ->
+Lemma set_up_Inv st o P n s idx : Inv st o P s ->
   exists s', set_up n s idx = Some s' /\
-    Inv o (fun j => P j \/ idx <= j < idx + Z.of_nat n) s' /\
+    Inv st o (fun j => P j \/ idx <= j < idx + Z.of_nat n) s' /\
     Mono (fun j => P j \/ idx <= j < idx + Z.of_nat n) s s'.
 Proof.
   intros H. rewrite set_up_run.
-  destruct (run_sets_total o (zrange_up idx n) P s H) as (s' & rs & E). rewrite E.
+  destruct (run_sets_total st o (zrange_up idx n) P s H) as (s' & rs & E). rewrite E.
   exists s'. split; [reflexivity|].
-  destruct (run_Inv o _ _ _ _ _ H E) as (I & M & _).
+  destruct (run_Inv st o _ _ _ _ _ H E) as (I & M & _).
   assert (Hiff : forall j, (P j \/ was_set (map OSet (zrange_up idx n)) j) <->
                            (P j \/ idx <= j < idx + Z.of_nat n)).
   { intros j. rewrite was_set_map_OSet, zrange_up_In. tauto. }
@@ -335,15 +335,15 @@ Proof.
   - constructor; try apply M. intros j Hj. apply Hiff. apply (mo_passed _ _ _ M). exact Hj.
 Qed.
 
-Lemma set_down_Inv o P n s idx : Inv o P s ->
+Lemma set_down_Inv st o P n s idx : Inv st o P s ->
   exists s', set_down n s idx = Some s' /\
-    Inv o (fun j => P j \/ idx - Z.of_nat n < j <= idx) s' /\
+    Inv st o (fun j => P j \/ idx - Z.of_nat n < j <= idx) s' /\
     Mono (fun j => P j \/ idx - Z.of_nat n < j <= idx) s s'.
 Proof.
   intros H. rewrite set_down_run.
-  destruct (run_sets_total o (zrange_down idx n) P s H) as (s' & rs & E). rewrite E.
+  destruct (run_sets_total st o (zrange_down idx n) P s H) as (s' & rs & E). rewrite E.
   exists s'. split; [reflexivity|].
-  destruct (run_Inv o _ _ _ _ _ H E) as (I & M & _).
+  destruct (run_Inv st o _ _ _ _ _ H E) as (I & M & _).
   assert (Hiff : forall j, (P j \/ was_set (map OSet (zrange_down idx n)) j) <->
                            (P j \/ idx - Z.of_nat n < j <= idx)).
   { intros j. rewrite was_set_map_OSet, zrange_down_In. tauto. }
